@@ -179,10 +179,21 @@ func (e *fstraceEngine) gridCases() []ftCase {
 			}
 		}
 		// name-resolving legacy entry points and typed accessors
-		for _, n := range []string{"PK", "KEK", "Db", "Dbx", "SetupMode", "BootOrder"} {
-			vs := VarSpec{Sym: n}
+		// the name-resolving legacy entry points know two namespaces: the image security
+		// database GUID for exactly db, dbx, dbt, dbr and the global GUID for everything else
+		for _, p := range predefinedVars() {
+			if refLegacyGUID(p.V.Name) != *p.V.GUID {
+				continue // a vendor variable: not addressable by name through the legacy API
+			}
+			vs := VarSpec{Sym: p.Sym}
 			out = append(out, ftCase{cfg: ftCfg{Dir: dir}, ops: []ftOp{{Op: "write", API: "legacy.WriteEfivars", Var: vs, Val: vals[0]}}})
-			out = append(out, ftCase{cfg: ftCfg{Dir: dir}, ops: []ftOp{{Op: "read", API: "legacy.ReadEfivars", Var: vs, Stored: &StoredSpec{Mask: uint32(predefinedVar(n).Attributes), Val: vals[0]}}}})
+			out = append(out, ftCase{cfg: ftCfg{Dir: dir}, ops: []ftOp{{Op: "read", API: "legacy.ReadEfivars", Var: vs, Stored: &StoredSpec{Mask: uint32(p.V.Attributes), Val: vals[0]}}}})
+		}
+		for _, n := range []string{"dbt", "dbr", "dbtDefault", "dbrDefault", "dbxx", "d", "db2", "Db", "DB", "PKx", "KEKDefault2", "x", "Boot0001"} {
+			g := refLegacyGUID(n)
+			vs := VarSpec{Name: n, GUID: fmt.Sprintf("%x", refGUIDWire(g)), Attrs: 0x7}
+			out = append(out, ftCase{cfg: ftCfg{Dir: dir}, ops: []ftOp{{Op: "write", API: "legacy.WriteEfivars", Var: vs, Val: vals[0]}}})
+			out = append(out, ftCase{cfg: ftCfg{Dir: dir}, ops: []ftOp{{Op: "read", API: "legacy.ReadEfivars", Var: vs, Stored: &StoredSpec{Mask: 0x7, Val: vals[0]}}}})
 		}
 		for _, n := range []string{"PK", "KEK", "Db", "Dbx"} {
 			out = append(out, ftCase{cfg: ftCfg{Dir: dir}, ops: []ftOp{{Op: "write", API: "efi.WriteEFIVariable", Var: VarSpec{Sym: n}, Val: vals[0]}}})
@@ -203,6 +214,18 @@ func (e *fstraceEngine) gridCases() []ftCase {
 	}
 	e.grid = out
 	return out
+}
+
+// refLegacyGUID: the namespace the name-resolving legacy functions assign to a
+// variable name (UEFI 2.8 section 32.6.1: db, dbx, dbt, dbr live under
+// EFI_IMAGE_SECURITY_DATABASE_GUID; the globally defined variables under
+// EFI_GLOBAL_VARIABLE).
+func refLegacyGUID(name string) util.EFIGUID {
+	switch name {
+	case "db", "dbx", "dbt", "dbr":
+		return util.EFIGUID{Data1: 0xd719b2cb, Data2: 0x3d3a, Data3: 0x4596, Data4: [8]byte{0xa3, 0xbc, 0xda, 0xd0, 0x0e, 0x67, 0x65, 0x6f}}
+	}
+	return util.EFIGUID{Data1: 0x8be4df61, Data2: 0x93ca, Data3: 0x11d2, Data4: [8]byte{0xaa, 0x0d, 0x00, 0xe0, 0x98, 0x03, 0x2b, 0x8c}}
 }
 
 type ftAccessor struct {
@@ -346,6 +369,23 @@ func (e *fstraceEngine) Gen(seed uint64, tier string, run int) *Trace {
 			if c.cfg.Clients > 1 {
 				cl = i % c.cfg.Clients
 				v = vars[cl]
+			}
+			if c.cfg.Clients <= 1 && r.Chance(1, 8) {
+				// address the variable by name only: the legacy API picks the namespace
+				// (sequential runs only: interleaved callers each own their variables)
+				vv := v.Var()
+				nm := vv.Name
+				if r.Chance(1, 3) {
+					nm = Pick(r, []string{"db", "dbx", "dbt", "dbr"}) + Pick(r, []string{"", "", "Default", "x", "2"})
+				}
+				g := refLegacyGUID(nm)
+				v = VarSpec{Name: nm, GUID: fmt.Sprintf("%x", refGUIDWire(g)), Attrs: uint32(vv.Attributes)}
+				if r.Bool() {
+					c.ops = append(c.ops, ftOp{C: cl, Op: "write", API: "legacy.WriteEfivars", Var: v, Val: genVal(r)})
+				} else {
+					c.ops = append(c.ops, ftOp{C: cl, Op: "read", API: "legacy.ReadEfivars", Var: v, Stored: &StoredSpec{Mask: uint32(vv.Attributes), Val: genVal(r)}})
+				}
+				continue
 			}
 			if r.Bool() {
 				api := Pick(r, ftWriteAPIs)
